@@ -17,6 +17,7 @@ case "${1:-}" in
     if [ "$tier" = thorough ] && [ "$1" = C16 ] && [ -z "${VERIF_SKIP_SELFTESTS:-}" ]; then
       # the thorough tier first re-establishes what every verdict rests on: the instrumented copy
       # behaves like the original, and one seed is one execution (failures here are harness trouble)
+      ./bin/verifctl selftest instrumenter || { echo "check.sh: selftest instrumenter failed" >&2; exit 2; }
       ./bin/verifctl selftest instrumented-tests || { echo "check.sh: selftest instrumented-tests failed" >&2; exit 2; }
       ./bin/verifctl selftest determinism 16 || { echo "check.sh: selftest determinism failed" >&2; exit 2; }
     fi
